@@ -212,14 +212,16 @@ def run_api(ctx):
     if not any("-BUILD-FAILED" in b for b in broken):
         summary, mism, pv, errs = run_stream_shards(stream, {"spec": "spec", "cps": "cps", "searcher": "searcher"}.get(stream, "api"), ctx.seed, shards, n, extra="4" if stream == "spec" else "", feat="pattern" if stream == "searcher" else "default")
         for e in errs: broken.append("pipeline: " + e)
-        if ctx.pid == "C12":
+        if ctx.pid in ("C12", "C01"):
             # /^E$/ on single characters and short strings derived from E, against the reference semantics (Spec.v):
-            # a differing answer is a violation of C12 itself
-            s2, m2, pv2, e2 = run_stream_shards("spec", "spec", ctx.seed + 7, 8, 600 if ctx.tier == "quick" else 12000, extra="1 class")
+            # a differing answer is a violation of C12 itself (and of C01); the same stream ties the models of the
+            # single-character atoms (ClassSet.v class_node / char_node / dot_node, the subjects of the C01 and C12
+            # theorems) to the parser: IR equality on every generated atom
+            s2, m2, pv2, e2 = run_stream_shards("spec", "spec", ctx.seed + 7, 8, (600 if ctx.pid == "C12" else 300) if ctx.tier == "quick" else 12000, extra="1 class")
             for e in e2: broken.append("pipeline(class): " + e)
             for k, v in s2.items(): summary["class_" + k] = v
             mism += m2
-            pv += [l.replace("PROPVIOL prop=C01 ", "PROPVIOL prop=C12 ") for l in pv2]
+            pv += [l.replace("PROPVIOL prop=C01 ", "PROPVIOL prop=C12 ") for l in pv2] if ctx.pid == "C12" else pv2
     ctx.note("correspondence(api): %s mismatches=%d propviol(all kinds)=%d" % (summary, len(mism), len(pv)))
     mine = [pv_case(l) for l in pv if parse_kv(l).get("prop") in kinds]
     classes = {}
